@@ -1,3 +1,23 @@
-(* placeholder until the C07 theorems land *)
-Lemma c07_placeholder : True. Proof. exact I. Qed.
-Print Assumptions c07_placeholder.
+(* C07 -- a write transaction reads its own uncommitted changes.
+   Proved: the cursor machine over ANY view without empty branches -- in particular views that contain
+   leaves emptied by deletes of the same transaction -- yields every entry exactly once in view order, and
+   the pinned (pre-repair) machine did not (it stopped at an emptied leaf).
+   Not proved: that the overlay (transaction-local nodes shadowing mapped pages) presents the view the
+   reference predicts after each mutation; that is compared against the extracted reference after every
+   single operation on every run (level: translation validation for that half). *)
+From Coq Require Import List NArith.
+From Jamm Require Import Bytes Codec Tree Spec Cursor CursorFacts.
+Import ListNotations.
+
+Theorem C07_scan_with_empty_leaves : forall t, no_empty_branch t = true ->
+  scan t = CVal (map Cursor.to_item (flatten t)).
+Proof. exact cursor_all. Qed.
+Print Assumptions C07_scan_with_empty_leaves.
+
+(* the defect this property was written for, as a theorem about the pinned machine *)
+Theorem C07_legacy_refuted :
+  no_empty_branch skip_tree = true /\ flatten skip_tree = [EKv [Byte.x02] [Byte.x2a]] /\
+  iterate_legacy false (S (nodes skip_tree)) (S (nodes skip_tree)) (new_cursor skip_tree) = CVal [] /\
+  scan skip_tree = CVal [IKv [Byte.x02] [Byte.x2a]].
+Proof. exact next_legacy_skips_refuted. Qed.
+Print Assumptions C07_legacy_refuted.
